@@ -50,7 +50,7 @@ CHECKS = {
         text="Authenticated traffic between the real client and the reference server (short-term; long-term MD5 and SHA-256 keys; every legal tail) is harvested from simulated conversations. For each sampled message whose MAC equals the independently computed HMAC under the independently derived key: the untampered message must be accepted by decode(with_key, with_validation) and by validate(get_input_text); a key derived from a password one character off must be rejected; then every single-bit fault in every byte of the protected prefix (except the two header-length bytes) and of the MAC is applied in turn and must never be accepted as authenticated. Along the conversations themselves the client's accept/reject decisions are compared with the independent verifier."),
     "C09": dict(cat="exploration", ref="DESIGN.md §6 C09",
         tech="deterministic simulation with on-path attribute-splice faults; wire tap compares every decoder configuration with an independent 3-flag admission automaton; systematic sweep of all suffixes up to length 3/4 per base tail",
-        text="The rule exists so that attributes injected after the integrity/FINGERPRINT of a valid message by anything on the path have no effect; that fault is what is simulated. Spliced suffixes (ordinary, unknown, MI, MI-SHA256, FINGERPRINT, each with right or wrong checksum) are appended to valid in-flight messages with every base tail; the decoded attribute list under all 16 configurations, the validation verdict and what the client delivers are compared with an independent admission automaton; all 32 (state, next kind) pairs must be visited. The exhaustive 87,380-sequence enumeration of the property's quantifier is bounded enumeration of inputs (another technique) and is not claimed; suffixes up to length 4 per base tail are swept. Client-level reading: a message the client must accept by the C10/C07/C08 rules must not be rejected because it carries attributes the rule does not admit."),
+        text="The rule exists so that attributes injected after the integrity/FINGERPRINT of a valid message by anything on the path have no effect; that fault is what is simulated. Spliced suffixes (ordinary, unknown, MI, MI-SHA256, FINGERPRINT, each with right or wrong checksum, and two RFC-valid attributes whose values this library's value decoders refuse: a truncated MI-SHA256 and a non-ASCII REALM) are appended to valid in-flight messages with every base tail; the decoded attribute list under all 16 configurations, the validation verdict and what the client delivers are compared with an independent admission automaton; all 32 (state, next kind) pairs must be visited. The exhaustive 87,380-sequence enumeration of the property's quantifier is bounded enumeration of inputs (another technique) and is not claimed; suffixes up to length 4 per base tail are swept. Client-level reading: a message the client must accept by the C10/C07/C08 rules must not be rejected because it carries attributes the rule does not admit."),
 }
 
 NOT_APPLICABLE = {
